@@ -106,6 +106,31 @@ pub fn run(t: &[&str]) -> String {
             let s = rg(&mut c);
             b(r.right_mul_is_exact(&s)).to_string()
         }
+        // the crate-private non-panicking variants used by the regex constructors (through the hook)
+        "cadd" => {
+            let r = rg(&mut c);
+            let s = rg(&mut c);
+            match r.verif_checked_add(&s) {
+                Some(x) => format!("S {}", show(&x)),
+                None => "N".to_string(),
+            }
+        }
+        "cmul" => {
+            let r = rg(&mut c);
+            let s = rg(&mut c);
+            match r.verif_checked_mul(&s) {
+                Some(x) => format!("S {}", show(&x)),
+                None => "N".to_string(),
+            }
+        }
+        "crmie" => {
+            let r = rg(&mut c);
+            let s = rg(&mut c);
+            match r.verif_checked_right_mul_is_exact(&s) {
+                Some(x) => format!("S {}", b(x)),
+                None => "N".to_string(),
+            }
+        }
         "shift" => show(&rg(&mut c).shift()),
         _ => panic!("bad op"),
     }
